@@ -348,4 +348,23 @@ theorem memMap_accepted (tbl : List PrefixRow) (p : MapIn) (order : List Nat) (c
     (levelise_refc_size _ _ _) (fun x hx => levelise_refc _ _ _ x hx)
   exact check_of_clauses p (clauses_of_inv hp reuse _ hM (stemsOf_size' p.net p.strip) hl hc hn)
 
+
+/-- the map record of the scheduler model: op rows, level starts, location / capacity tables and size exactly as the
+    harness and the driver assemble them from `SimOps` (`ops`, `level_starts`, `c_locs`, `c_caps`, `c_len`) -/
+def simopsMap (tbl : List PrefixRow) (net : Net) (order : List Nat) (strip : Bool) (capsIn : Nat → Nat) (capsMin : Nat)
+    (reuse : Bool) : MapIn :=
+  let ops := genOps tbl net order strip
+  let st := stemsOf net strip
+  let lev := levelise net.idx.len st ops
+  let m := memMap net ops st lev capsIn capsMin reuse
+  { net := net, strip := strip, ops := ops, starts := lev.starts.reverse, locs := m.locs, caps := m.caps,
+    cLen := m.heap.maxSz, capsMin := capsMin }
+
+theorem simopsMap_accepted (tbl : List PrefixRow) (net : Net) (order : List Nat) (strip : Bool) (capsIn : Nat → Nat)
+    (capsMin : Nat) (reuse : Bool) (hwf : net.wfB = true) (ho : orderOKB net order = true)
+    (hf : strip = true → forksOKB net order = true) (hr : readsDrivenB tbl net order = true) (hpos : 0 < capsMin) :
+    (simopsMap tbl net order strip capsIn capsMin reuse).check = none :=
+  memMap_accepted tbl (simopsMap tbl net order strip capsIn capsMin reuse) order capsIn reuse hwf ho hf hr hpos
+    rfl rfl rfl rfl rfl
+
 end KV
